@@ -378,6 +378,25 @@ static void runCase(const std::vector<std::string>& lines) {
             }
             fprintf(g_out, "%s\n", out.c_str());
         }
+        // ---- element j of a container stored AT AN INDEX of that same container (beyond the size: the vector grows first) (C13) ----
+        else if (cmd == "mk.selfat") {
+            size_t k = tk.u64(); size_t j = tk.u64(); size_t at = tk.u64();
+            Points pts; SubFrame sf; Analogs an;
+            for (size_t i = 0; i < k; ++i) {
+                Point p; p.name("e" + std::to_string(i)); p.x((float)(i + 1)); pts.point(p);
+                Channel ch; ch.name("e" + std::to_string(i)); ch.data((float)(i + 1)); sf.channel(ch);
+                SubFrame one; one.channel(ch); an.subframe(one);
+            }
+            GUARD(
+                pts.point(pts.point(j), at); sf.channel(sf.channel(j), at); an.subframe(an.subframe(j), at);
+                std::string out = "ok";
+                for (size_t i = 0; i < pts.nbPoints(); ++i) out += " " + u((size_t)pts.point(i).x());
+                out += " |";
+                for (size_t i = 0; i < sf.nbChannels(); ++i) out += " " + u((size_t)sf.channel(i).data());
+                out += " |";
+                for (size_t i = 0; i < an.nbSubframes(); ++i) out += " " + (an.subframe(i).nbChannels() ? u((size_t)an.subframe(i).channel(0).data()) : std::string("-"));
+                fprintf(g_out, "%s\n", out.c_str()));
+        }
         else if (cmd == "mk.self") {   // containers of k elements built one by one, then element j appended to its own container (C13: the argument aliases the container)
             size_t k = tk.u64(); size_t j = tk.u64(); std::string how = tk.str();
             Points pts = how == "sized" ? Points(k) : Points(); SubFrame sf; Analogs an;
